@@ -296,6 +296,126 @@ def direct_history(ctx, ss, i):
     return terms, info
 
 
+# ---------------------------------------------------------------------------
+# (d): the lease-expiry crawler's cancel_lease between the other operations.  Mutable lease
+# slots are never packed: cancelling a lease that is not in the last occupied slot leaves an
+# unused slot between used ones, and every later lease must stay visible, renewable, and
+# must not be duplicated by an add with its secret.
+# ---------------------------------------------------------------------------
+def cancel_history(ctx, ss, i):
+    from allmydata.storage.lease import LeaseInfo
+    from allmydata.storage.mutable import MutableShareFile
+    r = ctx.rng("cancel", i)
+    ver = 1 + i % 2
+    si = bytes([0x25, 4, i & 0xff, (i >> 8) & 0xff]) + b"\x00" * 12
+    fn = M.create_mutable(ss, si, 0, WE, version=ver)
+    if r.random() < 0.5:
+        MutableShareFile(fn, ss).writev([(0, M.rb(r, r.choice([1, 20])))], None)
+    rsec = lambda k: M.secret(k)            # noqa: E731  lease k: renew secret k, cancel secret 40+k
+    csec = lambda k: M.secret(40 + k)       # noqa: E731
+    secrets_used = {M.secret(k) for k in list(range(0, 16)) + list(range(40, 56))}
+    h = M.htab_term(secrets_used | {b"\x00" * 32})
+    live = {}                               # lease number -> expiry: the statement's lease table
+    terms, info = [], []
+    nleases = r.choice([2, 3, 3, 4, 5, 6, 7])
+    plan = [("add", k, 5000 + 100 * k) for k in range(nleases)]
+    first = True
+    for _ in range(r.randint(6, 11)):
+        c = r.random()
+        known = sorted(live) or list(range(nleases))
+        if c < 0.30 or first:
+            # the crawler removes an expired lease: mostly an OLDER one, sometimes the newest
+            pool = list(range(nleases))
+            j = r.choice(pool[:-1] if (len(pool) > 1 and r.random() < 0.8) else pool)
+            plan.append(("cancel", j))
+            first = False
+        elif c < 0.55:
+            plan.append(("renew", r.choice(known + [r.choice(range(nleases)), 12]), r.choice([4000, 9000, 20000, 70000])))
+        elif c < 0.85:
+            plan.append(("add", r.choice(known + known + [r.choice(range(nleases)), 8 + r.randint(0, 3)]), r.choice([4000, 9000, 20000, 70000])))
+        else:
+            plan.append(("write", r.choice([0, 30, 600, 1500]), M.rb(r, r.choice([1, 5]))))
+    for step, op in enumerate(plan):
+        if not os.path.exists(fn):
+            break
+        raw0 = open(fn, "rb").read()
+        before = dict(live)
+        sf = MutableShareFile(fn, ss)
+        case = {"cancel": i, "step": step, "version": ver, "plan": repr(plan)[:900], "op": repr(op)[:200],
+                "leases_before": {str(k): v for k, v in before.items()}}
+        term = None
+        if op[0] == "add":
+            _, k, exp = op
+            res = M.call(sf.add_or_renew_lease, 1 << 30, LeaseInfo(1, rsec(k), csec(k), exp, M.NODEID))
+            want_res = ("ok", None)
+            what = "renew" if k in live else "add"
+            live[k] = max(live.get(k, 0), exp)
+            mcall = (lambda f, k=k, exp=exp: "mutfile_add_or_renew %s %s %s %s" % (h, f, T.N(1 << 30), t_lease(1, rsec(k), csec(k), exp, M.NODEID)))
+            label = "add_or_renew:" + what
+        elif op[0] == "renew":
+            _, k, exp = op
+            res = M.call(sf.renew_lease, rsec(k), exp)
+            if k in live:
+                want_res, what = ("ok", None), "known"
+                live[k] = max(live[k], exp)
+            else:
+                want_res, what = ("err", "EIndex"), "unknown"
+            mcall = (lambda f, k=k, exp=exp: "mutfile_renew %s %s %s %s" % (h, f, T.bytes_(rsec(k)), T.N(exp)))
+            label = "renew:" + what
+        elif op[0] == "cancel":
+            _, k = op
+            res = M.call(sf.cancel_lease, csec(k))
+            if k in live:
+                del live[k]
+                want_res, what = ("ok", None), ("older" if any(j > k for j in live) else "newest")
+            else:
+                want_res, what = ("err", "EIndex"), "unknown"
+            if res[0] == "ok":
+                res = ("ok", None)          # the number of bytes freed is not part of the statement
+            mcall = None
+            label = "cancel:" + what
+        else:
+            _, off, data = op
+            res = M.call(sf.writev, [(off, data)], None)
+            want_res, what, mcall = ("ok", None), "data", None
+            label = "write"
+        exists = os.path.exists(fn)
+        raw1 = open(fn, "rb").read() if exists else None
+        got = table_of(fn, "mutable") if exists else []
+        want = [(M.renew_key(ver, rsec(k)), e) for k, e in live.items()]
+        ctx.case((ver, repr(sorted(before.items())), repr(op)) if before else None, kind="crawler:" + label)
+        if res != want_res:
+            ctx.oracle_fail("lease-known-secret-rejected-after-cancel" if (op[0] == "renew" and want_res[0] == "ok") else "lease-call-wrong-result",
+                            "%s of lease %s on a v%d mutable share returned %r, the statement gives %r (leases held: %r)"
+                            % (op[0], op[1], ver, res, want_res, sorted(before)), case=case, expected=repr(want_res), observed=repr(res))
+        if not exists and live:
+            ctx.oracle_fail("lease-share-removed-with-leases", "the share file was removed although leases %r remain" % sorted(live), case=case)
+        elif exists:
+            if sorted(got) != sorted(want):
+                keys_w = [k for k, _ in want]
+                keys_g = [k for k, _ in got]
+                if any(keys_g.count(k) > keys_w.count(k) for k in set(keys_g)):
+                    kind = "lease-duplicate-on-known-secret"
+                elif any(keys_g.count(k) < keys_w.count(k) for k in set(keys_w)):
+                    kind = "lease-invisible-after-cancel" if any(p[0] == "cancel" for p in plan[:step + 1]) else "lease-expiry-shortened-or-lease-lost"
+                else:
+                    kind = "lease-table-differs"
+                ctx.oracle_fail(kind, "after %s (%s) the v%d mutable share shows leases %r, the statement gives %r"
+                                % (label, op[1], ver, sorted(got), sorted(want)), case=case, expected=repr(sorted(want)), observed=repr(sorted(got)))
+            if ver == 2 and any(x in raw1 for x in secrets_used):
+                ctx.oracle_fail("lease-cleartext-secret-in-v2-container", "a lease secret is stored in cleartext in a v2 mutable container", case=case)
+        # model
+        if op[0] == "cancel":
+            terms.append("(let '(s, e) := mutfile_cancel %s %s %s in share_eqb s %s && opt_err_eqb e %s)"
+                         % (h, M.hexb(raw0), T.bytes_(csec(op[1])), M.t_share(raw1), M.t_opt_err(res)))
+            info.append(case)
+        elif mcall is not None and exists:
+            terms.append("(let o := %s in list_N_eqb (out_file o) %s && opt_err_eqb (out_err o) %s)"
+                         % (mcall(M.hexb(raw0)), M.hexb(raw1), M.t_opt_err(res)))
+            info.append(case)
+    return terms, info
+
+
 def run(ctx):
     ctx.correspondence("lease-model-vs-server-histories")
     ctx.correspondence("lease-model-vs-direct-calls")
@@ -324,6 +444,16 @@ def run(ctx):
         ctx.mismatch("lease-model-vs-impl-direct", "the Coq model and a direct lease method call disagree (exception or file bytes)",
                      case=dinfo[ix], correspondence="lease-model-vs-direct-calls")
     ctx.trace(len(dterms) - len(bad))
+    cterms, cinfo = [], []
+    for i in range(ctx.n(14, 140)):
+        t, inf = cancel_history(ctx, ss, i)
+        cterms += t
+        cinfo += inf
+    bad = ctx.coq_check(M.IMPORTS, cterms, preamble=M.PREAMBLE, tag="c25c", shard=40)
+    for ix in bad:
+        ctx.mismatch("lease-model-vs-impl-cancel", "the Coq model and a lease method call disagree in a history with cancel_lease (exception or file bytes)",
+                     case=cinfo[ix], correspondence="lease-model-vs-direct-calls")
+    ctx.trace(len(cterms) - len(bad))
     # a server without space: a fifth lease on a mutable share is refused, the first four fit the header
     ro, roclock = M.new_server("c25ro", readonly=True)
     rterms, rinfo = [], []
@@ -359,6 +489,10 @@ def replay(ctx, rec):
         t, inf = direct_history(ctx, ss, case["direct"])
         bad = ctx.coq_check(M.IMPORTS, t, preamble=M.PREAMBLE, tag="c25r")
         return {"calls": inf, "model_disagrees_at": bad}
+    if "cancel" in case:
+        t, inf = cancel_history(ctx, ss, case["cancel"])
+        bad = ctx.coq_check(M.IMPORTS, t, preamble=M.PREAMBLE, tag="c25r")
+        return {"calls": [x["op"] for x in inf], "model_disagrees_at": bad}
     if "history" in case:
         sub = type(ctx)(ctx.pid, rec.get("tier", "quick"), rec.get("seed", 0))
         imm = bool(case.get("immutable"))
